@@ -3,10 +3,16 @@ sys.path.insert(0, os.path.join(VERIF, 'harness'))
 from typed_common import *
 HARNESSES = []
 for t, k in combos():
-    tiers = ('quick', 'thorough') if t in QUICK_TYPES else ('thorough',)
+    # T_IntSemi/oer is quick since seed C02-oer-semiconstrained-guard-octet (variable-size unsigned form)
+    tiers = ('quick', 'thorough') if t in QUICK_TYPES or (t, k) == ('T_IntSemi', 'oer') else ('thorough',)
     hb = ['-DINT_HARNESS_BOUND=8388607LL'] if (t, k) in HEAVY else []
     HARNESSES.append(typed(H, 'enc_%s_%s' % (t, k), 'typed/enc_exact.c', t, k, tiers=tiers, defines=hb, bounds=('|v| < 2^23 (unconstrained-length UPER integer)' if hb else ''),
                            functions=['%s codec on %s' % (k, t)], inputs='abstract value of %s (all fields symbolic)' % t))
+
+# semi-constrained / unconstrained UPER integers at type level, value range bounded (decoding them is too costly, encoding is not)
+for t in ('T_IntSemi',):
+    HARNESSES.append(typed(H, 'enc_%s_uper' % t, 'typed/enc_exact.c', t, 'uper', defines=['-DINT_HARNESS_BOUND=300LL'], bounds='|v| <= 300', maxdeepen=2400,
+                           functions=['uper codec on %s' % t], inputs='abstract value of %s, |v| <= 300' % t))
 
 # Layer K: UPER building blocks with all arguments symbolic (covers the variable-length parts that are
 # too costly at type level)
